@@ -143,7 +143,9 @@ class Ctx:
         else:
             self.n_decided += 1
             t = self.check(cond) != "unsat"
-            f = self.check(z3.Not(cond)) != "unsat"
+            # pc is satisfiable (invariant of a followed path), so if cond is
+            # refuted its negation needs no second query
+            f = True if not t else self.check(z3.Not(cond)) != "unsat"
             if t and f:
                 self.n_forks += 1
                 self.work.append(self.prefix[: self.pos] + [False])
@@ -329,7 +331,12 @@ class SInt:
         oe = SInt.lift(o)
         if oe is None:
             return NotImplemented
+        if type(o) is int and o == 1:
+            return self
         self._posdiv(self.e, oe)
+        ex = _exact_div(self.e, oe)
+        if ex is not None:
+            return ex
         return SInt(self.e / oe)
 
     def __rfloordiv__(self, o):
@@ -451,6 +458,35 @@ class SInt:
 
     def bit_length(self):
         return CTX.concretize(self.e).bit_length()
+
+
+def _mul_factors(e):
+    if z3.is_app_of(e, z3.Z3_OP_MUL):
+        r = []
+        for c in e.children():
+            r.extend(_mul_factors(c))
+        return r
+    return [e]
+
+
+def _exact_div(num, den):
+    """(a*d*b) // d == a*b for d > 0: cancel a syntactic factor (sound
+    algebra; keeps nonlinear `div` out of the solver).  None if no factor."""
+    fs = _mul_factors(num)
+    ds = _mul_factors(den)
+    for d in ds:
+        for i, f in enumerate(fs):
+            if f.eq(d):
+                del fs[i]
+                break
+        else:
+            return None
+    if not fs:
+        return 1
+    r = fs[0]
+    for f in fs[1:]:
+        r = r * f
+    return SInt(r)
 
 
 class SReal:
